@@ -402,7 +402,7 @@ pub fn specs() -> Vec<PropSpec> {
         },
         PropSpec {
             id: "C16",
-            parts: &[("c12", 160, 6000)],
+            parts: &[("c12", 160, 6000), ("c03", 240, 3000), ("netfaults", 48, 1000)],
             level: "exploration",
             tags: &["C16"],
             rule: "Same runs as C12; every call into the endpoints runs \
@@ -423,7 +423,17 @@ pub fn specs() -> Vec<PropSpec> {
                 bodies) decoded with serde into the API types and, if \
                 they decode, handed to the manager call. No panic, no \
                 exit; a refused input leaves configuration and published \
-                content unchanged; background work still runs afterwards.",
+                content unchanged; background work still runs afterwards. Parts c03 and netfaults: the removal-heavy \
+                histories and the two-instance histories over the faulty \
+                network, in which children, parents and publishers \
+                exchange real protocol messages in every reachable \
+                state (classes dropped at the parent, keys already \
+                revoked, duplicates, replies lost); any panic or \
+                daemon exit while an operation or a background task \
+                processes such an exchange counts. The numeric path \
+                segments of the history and stale-publisher routes are \
+                passed with extreme values to the manager calls their \
+                handlers make.",
             assumptions: COMMON_ASSUMPTIONS,
         },
         PropSpec {
